@@ -44,7 +44,7 @@ def counter_rule(ctx, fn, local, ty, inst, what):
                 continue
         ok = False
         bad = e
-    ctx.check(ok and steps == 1, "counter-checked", inst, "%s is a %s advanced only by checked_add(1) with a panicking None" % (what, ty),
+    ctx.check(ok and steps >= 1, "counter-checked", inst, "%s is a %s advanced only by checked_add(1) with a panicking None" % (what, ty),
               "%s is not a %s advanced only through checked_add(1).expect(..): requests beyond the KDF's limit wrap or truncate instead of being refused (%s)" % (what, ty, fmt(bad) if bad else "type %s, %d steps" % (fn.locals[local], steps)), where=fn.where(), key="counter-checked:%s" % inst)
 
 
@@ -129,6 +129,10 @@ def check_hkdf(ctx, P):
 
 
 def check_pbkdf2(ctx, P):
+    # the function itself, against RFC 8018 with an uninterpreted PRF (independent of how the code is organised); the
+    # structural rules below decide the same clauses for every length and stay as cross-checks
+    from . import objshape
+    ctx.guard("shape-eval", "pbkdf2", lambda: objshape.check_pbkdf2(ctx, P))
     fn = P.fn("pbkdf2::pbkdf2")
     cbs = fn.calls_to(r"^pbkdf2::calculate_block$")
     if not cbs:
